@@ -22,10 +22,11 @@ Python, src/sourmash/signature.py : `similarity`, `jaccard`, `contained_by`, ...
     pass-throughs to the MinHash methods (`PyCmp.sigJaccard` is the one that is not a
     plain pass-through: it calls `similarity(ignore_abundance=True)`, not `jaccard`).
 
-What is NOT computed here (tier 2, done by the driver with the run-time `Float`
-and compared with a tolerance): the final `sqrt` / `acos` of the angular
-similarity and the real-valued bias factor `1 - (1 - 1/scaled)^(n*scaled)` of the
-containment functions.  This file produces the exact integers those formulas are
+What is NOT computed here (tier 2): the two libm calls — `acos` in the angular similarity and
+`**` in the bias factor `1 - (1 - 1/scaled)^(n*scaled)` of the containment functions.  They are
+PARAMETERS of `Cmp.angularValue` / `PyCmp.Cont.value`; everything around them (integer
+conversions, `sqrt`, `*`, `/`, `-`, `min(·, 1.)`, the clamps) is exact binary64 arithmetic.  The
+driver instantiates the parameters with the run-time `Float` functions of the same libm.  This file produces the exact integers those formulas are
 applied to, every decision around them (zero denominators, guards, clamping),
 and the exact double for every ratio that involves only correctly rounded
 primitives (`F64.div`, `F64.add`).
@@ -129,6 +130,26 @@ def angularParts (s o : MH) : Except Err (Nat × Nat × Nat) := do
     pure (dotL (s.mins.zip ab) (o.mins.zip ob) 0 % W64, sumSq ab % W64, sumSq ob % W64)
   | _, _ => .error .needsAbund
 
+/-- the argument handed to `acos`: `f64::min(prod as f64 / (norm_a * norm_b), 1.)` with
+    `norm = (x_sq as f64).sqrt()` — integer conversion, `sqrt`, `*`, `/` are correctly rounded
+    IEEE operations and are computed exactly here; `min(q, 1.)` is the clamp that keeps `acos` in its domain -/
+def cosArg (p a b : Nat) : F64.F :=
+  let na := F64.sqrt (F64.ofNat a)
+  let nb := F64.sqrt (F64.ofNat b)
+  let q := F64.div (F64.ofNat p) (F64.fmul na nb)
+  if F64.ge q F64.one then F64.one else q
+
+/-- the only libm-dependent step of `angular_similarity` is `acos`; with it as a parameter the rest
+    `1. - 2. * prod.acos() / PI` is exact binary64 arithmetic (the result is signed: nothing in the
+    code prevents `2·acos/π` from exceeding 1 except a property of `acos`) -/
+def angTail (acos : F64.F → F64.F) (c : F64.F) : F64.SF :=
+  F64.SF.subF F64.one (F64.div (F64.fmul F64.two (acos c)) F64.PI)
+
+/-- `angular_similarity` from the three `u64` values, `acos` a parameter -/
+def angularValue (acos : F64.F → F64.F) (p a b : Nat) : F64.SF :=
+  if a = 0 ∨ b = 0 then F64.SF.zero               -- `norm_a == 0. || norm_b == 0.`
+  else angTail acos (cosArg p a b)
+
 /-- what `similarity` returns, before the float tail -/
 inductive SimVal where
   | jac (common size : Nat)          -- `common / size`, `size` already `max(1, ·)`
@@ -212,6 +233,15 @@ deriving DecidableEq, Repr
 def Cont.unbiased : Cont → F64.F
   | .zero => F64.zero
   | .ratio cc denom _ => F64.clamp01 (F64.div (F64.ofNat cc) (F64.ofNat denom))
+
+/-- the value of `contained_by` / `max_containment` with the bias factor
+    `1.0 - (1.0 - 1.0 / scaled) ** float(denom * scaled)` as a parameter `bias scaled denom`
+    (its `**` is libm): `common / (denom * bias_factor)` = `float(common) / (float(denom) * bias)`,
+    then the clamp `>= 1 -> 1.0`, `<= 0 -> 0.0` -/
+def Cont.value (bias : Nat → Nat → F64.F) : Cont → F64.F
+  | .zero => F64.zero
+  | .ratio cc denom scaled =>
+    F64.clamp01 (F64.div (F64.ofNat cc) (F64.fmul (F64.ofNat denom) (bias scaled denom)))
 
 def scaledGuard (s o : MH) : Bool := decide (scaledProp s ≠ 0 ∧ scaledProp o ≠ 0)
 
